@@ -344,6 +344,9 @@ func minimiseReplay(eng Engine, rf *ReplayFile, t *testing.T) {
 		rc := &RunCtx{Prop: rf.Property, Engine: rf.Engine, Seed: rf.RunSeed, Index: rf.Index, T: t, Tier: rf.Tier, Replay: true,
 			W: simrt.ReplayTape(work), S: simrt.ReplayTape(sched)}
 		o := runOnce(eng, rc)
+		if os.Getenv("VERIF_DEBUG_MIN") != "" {
+			fmt.Fprintf(os.Stderr, "minimise exec %d: class=%q key=%q msg=%.300s\n", execs, o.Class, o.Key, o.Msg)
+		}
 		if o.Class == rf.Class && o.Key == rf.Key {
 			return true
 		}
